@@ -325,6 +325,19 @@ def install(eng):
     def _partial(eng, f, *a, **k):
         return I.Model("partial", lambda eng_, *b, **kb: eng_.call(f, list(a) + list(b), {**k, **kb}))
 
+    @model("functools.reduce")
+    def _reduce(eng, f, it, *init):
+        vals = list(M.iterate(eng, it))          # concrete length only (a symbolic list needs a loop contract)
+        if init:
+            acc = init[0]
+        elif vals:
+            acc, vals = vals[0], vals[1:]
+        else:
+            raise I.PyRaise("TypeError", ("reduce() of empty iterable with no initial value",))
+        for v in vals:
+            acc = eng.call(f, [acc, v], {})
+        return acc
+
     @model("builtins.reversed")
     def _reversed(eng, it):
         return list(M.iterate(eng, it))[::-1]
@@ -1161,6 +1174,21 @@ def install(eng):
     @model("numpy.isclose")
     def _isclose(eng, a, b, atol=Fraction(1, 10**8), rtol=Fraction(1, 10**5)):
         return M.elementwise(eng, lambda x, y: T.compare("le", T.absv(T.sub(x, y)), T.add(atol, T.mul(rtol, T.absv(y)))), a, b, dtype="bool")
+
+    @model("numpy.indices")
+    def _indices(eng, dimensions, dtype=None, sparse=False):
+        if sparse:
+            raise Unsupported("numpy.indices(sparse=True)")
+        dims = shape_arg(dimensions)
+        nd = len(dims)
+        if nd == 0:
+            raise Unsupported("numpy.indices of an empty shape")
+
+        def fn(d, *i):
+            if T.is_sym(d):
+                return M.select_const(d, [lambda k=k: i[k] for k in range(nd)])
+            return i[int(d)]
+        return I.Arr((nd,) + tuple(dims), fn, dtype_arg(dtype, "int"))
 
     @model("numpy.average")
     def _average(eng, a, axis=None, weights=None, **kw):
